@@ -521,7 +521,7 @@ impl SparqlDatabase {
             } else if o.starts_with("http://") || o.starts_with("https://") {
                 format!("<{}>", o)
             } else {
-                format!("\"{}\"", o)
+                format!("\"{}\"", escape_ntriples_literal(&o))
             };
 
             output.push_str(&format!("{} {} {} .\n", s_str, p_str, o_str));
@@ -618,7 +618,7 @@ impl SparqlDatabase {
                     } else if obj.starts_with("http://") || obj.starts_with("https://") {
                         output.push_str(&format!("<{}>", obj));
                     } else {
-                        output.push_str(&format!("\"{}\"", obj));
+                        output.push_str(&format!("\"{}\"", escape_ntriples_literal(obj)));
                     }
                 }
 
